@@ -52,6 +52,7 @@ HotLadder(o) ==
     [] o = 4 -> <<HUtop, UtH(TMin + 190, TMin + 200), UtH(TMin + 50, TMin + 150)>>   \* isothermal + 100-unit glide
     [] o = 6 -> <<HUtop, UtH(TMin + 140, TMin + 150), UtH(TMin + 140, TMin + 150)>>   \* two utilities at one level (seeded change C04c)
     [] o = 7 -> <<HUtop, UtHd(TMin + 140, TMin + 150, 100), UtH(TMin + 190, TMin + 200)>>   \* real order (250 > 200) opposite to the shifted one (150 < 200)
+    [] o = 8 -> <<HUtop, UtH(TMin + 150, TMin + 160)>>    \* target level exactly ON a breakpoint (a possible pinch): tie in the reach test (seeded change C04d)
     [] o = 5 -> <<UtH(TMin - 300, TMin - 290)>>   \* only a hot utility BELOW everything (where the service puts the
                                                   \* default HU of a problem without cold streams): top row is a process row
 ColdLadder(o) ==
@@ -62,6 +63,7 @@ ColdLadder(o) ==
     [] o = 4 -> <<CUbot, UtC(TMin + 100, TMin + 110), UtC(TMin + 150, TMin + 250)>>
     [] o = 6 -> <<CUbot, UtC(TMin + 100, TMin + 110), UtC(TMin + 100, TMin + 110)>>   \* two utilities at one level
     [] o = 7 -> <<CUbot, UtCd(TMin + 100, TMin + 110, 100), UtC(TMin + 50, TMin + 60)>>     \* real order (0 < 50) opposite to the shifted one (100 > 50)
+    [] o = 8 -> <<CUbot, UtC(TMin + 40, TMin + 50)>>      \* target level exactly on a breakpoint
     [] o = 5 -> <<UtC(TMax + 290, TMax + 300)>>   \* only a cold utility ABOVE everything (default CU of a problem without hot streams)
 
 Sup(u) == IF u.k = "H" THEN u.hi ELSE u.lo      \* shifted supply level
